@@ -108,14 +108,8 @@ func (cf c3Cfg) lispKeys() string {
 		cf.base, tn(cf.radix), cs, tn(cf.pretty), cf.margin, tn(cf.readably), tn(cf.array))
 }
 
-// readBase is the *read-base* the text is read with: the standard 10 whenever the printer marks
-// the base itself (radix) or prints in base 10; the print base otherwise.
-func (cf c3Cfg) readBase() int {
-	if cf.radix {
-		return 10
-	}
-	return cf.base
-}
+// readBase is the *read-base* the text is read with: the standard 10.
+func (cf c3Cfg) readBase() int { return 10 }
 
 // ---------------------------------------------------------------------------------------------
 // the implementation side
@@ -273,9 +267,9 @@ type c3Case struct {
 }
 
 // inDomain: the settings documented to keep output readable — *print-readably* on, arrays printed
-// (*print-array*) when the object has any, the base marked by *print-radix* or equal to the
-// reader's base. With radix off and another base the text is read with *read-base* = base, which
-// can only work for objects without symbols (their names are tokens that may be numerals there).
+// (*print-array*) when the object has any, and the base either marked by *print-radix* or equal to
+// the reader's standard base 10 ("base with radix" in the property's statement; without the
+// radix marker a number printed in base 30 may even spell t or nil).
 func (cs c3Case) inDomain() bool {
 	if !cs.cf.readably {
 		return false
@@ -283,12 +277,7 @@ func (cs c3Case) inDomain() bool {
 	if !cs.cf.array && cs.obj.has(func(o *c3Obj) bool { return o.kind == "vec" || o.kind == "arr" }) {
 		return false
 	}
-	if !cs.cf.radix && cs.cf.base != 10 && cs.obj.has(func(o *c3Obj) bool {
-		return o.kind == "sym" || o.kind == "t" || o.kind == "nil" || strings.HasSuffix(o.kind, "flt")
-	}) {
-		return false
-	}
-	return true
+	return cs.cf.radix || cs.cf.base == 10
 }
 
 func (cs c3Case) key() string { return cs.cf.String() + " " + cs.obj.term() }
